@@ -49,6 +49,7 @@ int v_atoi(const char *);
 long long v_atoll(const char *);
 int v_vsnprintf(char *, size_t, const char *, va_list);
 int v_snprintf(char *, size_t, const char *, ...);
+int v_sscanf(const char *, const char *, ...);
 #define strstr(...)     v_strstr(__VA_ARGS__)
 #define strcasestr(...) v_strcasestr(__VA_ARGS__)
 #define strnlen(...)    v_strnlen(__VA_ARGS__)
@@ -60,6 +61,7 @@ int v_snprintf(char *, size_t, const char *, ...);
 #define atoll(...)      v_atoll(__VA_ARGS__)
 #define vsnprintf(...)  v_vsnprintf(__VA_ARGS__)
 #define snprintf(...)   v_snprintf(__VA_ARGS__)
+#define sscanf(...)     v_sscanf(__VA_ARGS__)
 
 #include "vlibc_native_more.h"
 #endif
